@@ -311,15 +311,27 @@ RemotePayloadType(c, remote) == \E i \in 1..Len(remote) : remote[i].pt = c.pt /\
 \* "matched (exactly or partially) by a locally registered codec"
 MatchedBy(c, l)  == Match(c, l) \/ Match(l, c) \/ PartialMatch(l, c) \/ PartialMatch(c, l)
 MatchesLocal(c, local) == \E i \in 1..Len(local) : MatchedBy(c, local[i])
-\* "exact matches are preferred over partial ones", for codecs that do not refer to another
-\* payload type (no apt parameter; the exactness of an RTX codec depends on its primary codec and is
-\* not judged): if some offered codec matches a local codec exactly, no codec in use is a merely
-\* partial match.
+\* "exact matches are preferred over partial ones": if some offered codec that does not refer to
+\* another payload type (no apt parameter) matches a local codec exactly, no codec in use is a merely
+\* partial match.  A codec in use WITHOUT apt must then match some local codec exactly.  A codec in
+\* use WITH apt=N (an RTX codec) is an exact match in the weakest reading of what pion's apt handling
+\* means: either it matches some local codec exactly as it stands, or the offered codec with payload
+\* type N matches some local codec l exactly and, with its apt value replaced by l's payload type, it
+\* matches some local codec exactly (an RTX entry for l is registered locally).
 HasApt(c)        == "apt" \in DOMAIN c.P.p
 ExactLocal(c, local) == \E i \in 1..Len(local) : Match(c, local[i])
+WithApt(c, v)    == [c EXCEPT !.P.p["apt"] = v, !.P.pf["apt"] = v]
+ExactApt(c, local, remote) ==
+  \/ ExactLocal(c, local)
+  \/ /\ IsUint(c.P.p["apt"])
+     /\ \E i \in 1..Len(remote), j \in 1..Len(local) :
+          /\ remote[i].pt = Uint(c.P.p["apt"])
+          /\ (Match(remote[i], local[j]) \/ Match(local[j], remote[i]))
+          /\ ExactLocal(WithApt(c, ToString(local[j].pt)), local)
 ExactOffered(local, remote) == {i \in 1..Len(remote) : ~HasApt(remote[i]) /\ ExactLocal(remote[i], local)}
 ExactPreferred(local, remote, neg) ==
-  ExactOffered(local, remote) # {} => \A i \in 1..Len(neg) : HasApt(neg[i]) \/ ExactLocal(neg[i], local)
+  ExactOffered(local, remote) # {} =>
+     \A i \in 1..Len(neg) : IF HasApt(neg[i]) THEN ExactApt(neg[i], local, remote) ELSE ExactLocal(neg[i], local)
 \* "RTCP feedback is the intersection of both sides": the feedback of a codec in use is, as a set,
 \* the intersection of the feedback of the offered codec with that payload type and of some local
 \* codec that matches it
